@@ -172,9 +172,10 @@ fn cases(tier: Tier) -> Vec<Case> {
                     }
                 }
             }
-            // the source fails after the closed deep value
+            // the source fails after the closed deep value (7..=9: after the root; 10..=18: while
+            // an outer container under construction holds it)
             for w in words(2) {
-                for ending in 7..10 {
+                for ending in 7..19 {
                     v.push(Case {
                         word: w.clone(),
                         ending,
@@ -281,7 +282,7 @@ fn cases(tier: Tier) -> Vec<Case> {
                 }
             }
             for w in words(3) {
-                for ending in 7..10 {
+                for ending in 7..19 {
                     v.push(Case {
                         word: w.clone(),
                         ending,
@@ -529,11 +530,25 @@ fn run_source_failure_case(c: &Case) -> Result<(), String> {
     let mut closed = c.clone();
     closed.ending = 0;
     let (doc, _, _) = build(&closed);
+    // endings 10..=18: the same three failures of the source, not after the root but right after
+    // the deep value as the first item of an outer array, as the first member value of an outer
+    // object, and after the comma that follows it - the parser holds the finished deep value in
+    // a container under construction when the source fails
+    let (doc, ending) = if c.ending >= 10 {
+        let place = (c.ending - 10) / 3;
+        let doc = match place {
+            0 => format!("[{doc}"),
+            1 => format!("{{\"k\":{doc}"),
+            _ => format!("[{doc},"),
+        };
+        (doc, 7 + (c.ending - 10) % 3)
+    } else {
+        (doc, c.ending)
+    };
     let o = Options {
         accept_truncated_surrogate_pair: c.rec.0,
         accept_invalid_codepoints: c.rec.1,
     };
-    let ending = c.ending;
     let h = std::thread::Builder::new()
         .stack_size(c.stack_kib * 1024)
         .spawn(move || -> Result<(), String> {
@@ -612,7 +627,10 @@ pub fn child_main() -> i32 {
 }
 
 fn case_json(i: usize, c: &Case, tier: Tier) -> J {
-    let ending = ["closed", "unclosed", "wrong innermost closer", "closed + trailing garbage", "wrong outermost closer", "deep first array item then a bad item", "deep first member then a bad key", "closed + an ill-formed byte", "closed + whitespace + a truncated UTF-8 sequence", "closed, then the character source fails"][c.ending as usize];
+    let ending = ["closed", "unclosed", "wrong innermost closer", "closed + trailing garbage", "wrong outermost closer", "deep first array item then a bad item", "deep first member then a bad key", "closed + an ill-formed byte", "closed + whitespace + a truncated UTF-8 sequence", "closed, then the character source fails",
+        "first item of an outer array + an ill-formed byte", "first item of an outer array + whitespace + a truncated UTF-8 sequence", "first item of an outer array, then the character source fails",
+        "first member of an outer object + an ill-formed byte", "first member of an outer object + whitespace + a truncated UTF-8 sequence", "first member of an outer object, then the character source fails",
+        "first item of an outer array + comma + an ill-formed byte", "first item of an outer array + comma + whitespace + a truncated UTF-8 sequence", "first item of an outer array + comma, then the character source fails"][c.ending as usize];
     let entry = ["parse_slice_with", "parse_str_with", "parse_slice_with from a destructor while the thread is unwinding"][c.entry as usize];
     json!({
         "kind": "pump",
@@ -654,7 +672,7 @@ fn run_range(tier: Tier, start: usize, end: usize, cs: &[Case], t: &mut Tally) {
                     next = i + 1;
                     let status = it.next().unwrap_or("");
                     if status == "ok" {
-                        t.outcome(["pump:closed ok", "pump:unclosed rejected at end", "pump:wrong closer rejected in place", "pump:trailing garbage rejected in place", "pump:wrong outermost closer rejected in place", "pump:bad sibling of a deep item rejected in place", "pump:bad sibling of a deep member rejected in place", "pump:ill-formed byte after the value reported in place", "pump:truncated sequence after the value reported in place", "pump:source failure after the value reported in place"][cs[i].ending as usize]);
+                        t.outcome(["pump:closed ok", "pump:unclosed rejected at end", "pump:wrong closer rejected in place", "pump:trailing garbage rejected in place", "pump:wrong outermost closer rejected in place", "pump:bad sibling of a deep item rejected in place", "pump:bad sibling of a deep member rejected in place", "pump:ill-formed byte after the value reported in place", "pump:truncated sequence after the value reported in place", "pump:source failure after the value reported in place"][(cs[i].ending as usize).min(9)]);
                         t.nontrivial(&i);
                     } else {
                         t.violation("", format!("pumped document mishandled: {}", it.next().unwrap_or("")), case_json(i, &cs[i], tier));
@@ -747,7 +765,7 @@ pub fn run(rep: &mut Report, tier: Tier) {
     t.sample(case_json(0, &cs[0], tier));
     t.sample(case_json(n - 1, &cs[n - 1], tier));
     rep.bounds["pump"] = json!({"cases": n, "words": "all words of length 1..3 over {[, [1,, {\"k\":, {\"a\":1,\"k\":}; all words of length 1..2 with a wide container (array, object, array with the nested value in the middle) over widths on both sides of the power-of-two thresholds",
-        "widths": cs.iter().map(|c| c.width).collect::<std::collections::BTreeSet<_>>(), "endings": ["closed", "unclosed", "wrong innermost closer", "closed + trailing garbage", "wrong outermost closer", "deep first item then a bad item", "deep first member then a bad key", "closed + ill-formed byte", "closed + whitespace + truncated UTF-8", "closed + failing character source"],
+        "widths": cs.iter().map(|c| c.width).collect::<std::collections::BTreeSet<_>>(), "endings": ["closed", "unclosed", "wrong innermost closer", "closed + trailing garbage", "wrong outermost closer", "deep first item then a bad item", "deep first member then a bad key", "closed + ill-formed byte", "closed + whitespace + truncated UTF-8", "closed + failing character source", "the same three source failures after the deep value inside an outer array / an outer object / after the following comma"],
         "depths": cs.iter().map(|c| c.depth).collect::<std::collections::BTreeSet<_>>(), "stack_kib": cs.iter().map(|c| c.stack_kib).collect::<std::collections::BTreeSet<_>>()});
     rep.absorb(t);
 }
